@@ -198,7 +198,21 @@ def roots_replay(ck, c, proxy):
         if proxy.calls == calls0:
             # the prescribed answer is injected through the module's `np.roots`: a polyroots that finds its roots in another way never sees it (and solves the
             # dummy polynomial instead) - the replay of Roots.tla's orders says nothing then; the real polynomials below still decide the property
-            ck.drift('polyroots/root-order-injection-no-longer-fits', 'polyroots01 did not call np.roots of svgpathtools.polytools: prescribed root orders cannot be replayed')
+            ck.drift('polyroots/root-order-injection-no-longer-fits', 'polyroots01 did not call np.roots of svgpathtools.polytools for %d roots: prescribed root orders cannot be replayed' % len(roots))
+            # ... but the root *content* can: the real polynomial with these roots (when they are closed under conjugation) through the unpatched entry point
+            cvals = [complex(v) for v in vals]
+            if all(abs(v.imag) == 0 or any(abs(w - v.conjugate()) <= 1e-12 for w in cvals) for v in cvals):
+                co = numpy.real(numpy.poly(cvals))
+                out_r = pt.polyroots01(co)
+                clustered = set(r['c'] for r in roots if sum(1 for q_ in roots if q_['c'] == r['c']) > 1)
+                for r, v in zip(roots, cvals):
+                    if r['k'] == 'in' and r['c'] not in clustered and 1e-6 < v.real < 1 - 1e-6:
+                        cnt = sum(1 for o in out_r if abs(o - v.real) <= 1e-6)
+                        if cnt != 1:
+                            ck.disagree(key='polyroots/simple-root-%s' % ('lost' if cnt == 0 else 'duplicated'), site='svgpathtools/polytools.py:polyroots',
+                                        what='real polynomial with the roots %s: simple root %r returned %d times: %s' % ([str(x) for x in cvals], v.real, cnt, list(out_r)),
+                                        case={'roots': roots, 'vals': [str(x) for x in vals]}, expected='once', observed=[float(numpy.real(o)) for o in out_r], driver='polyroots')
+                            break
             return
         out2 = pt.polyroots(coeffs, realroots=True, condition=lambda r: 0 <= r <= 1)
     except Exception as e:      # noqa
@@ -282,7 +296,10 @@ def end_roots_and_dtypes(ck):
     site = 'svgpathtools/polytools.py:polyroots / polyroots01'
     fams = [([1.0], 'end'), ([1.0, -2.0, -3.0], 'end'), ([1.0, complex(-2, 3), complex(-2, -3)], 'end'), ([0.0, 2.0, 3.0], 'end'), ([0.0, -1.5], 'end'),
             ([0.0, 1.0, -2.0], 'end'), ([1.0, -0.5, -4.0, complex(-1, 1), complex(-1, -1)], 'end'),
-            ([0.25, 0.5, 0.75, complex(-1, 2), complex(-1, -2)], 'in'), ([0.125, 0.625, complex(0.5, 0.5), complex(0.5, -0.5)], 'in'), ([0.5, 3.0, -2.0], 'in')]
+            ([0.25, 0.5, 0.75, complex(-1, 2), complex(-1, -2)], 'in'), ([0.125, 0.625, complex(0.5, 0.5), complex(0.5, -0.5)], 'in'), ([0.5, 3.0, -2.0], 'in'),
+            # low degrees (closed forms are tempting there): linear, quadratics with a vanishing middle coefficient, with a root at 0, with two admissible roots
+            ([0.625], 'in'), ([0.5, -0.5], 'in'), ([0.25, -0.25], 'in'), ([0.25, 0.75], 'in'), ([0.375, 4.0], 'in'), ([0.5, complex(0.0, 1.0), complex(0.0, -1.0)], 'in'),
+            ([0.75, -0.75, 0.5], 'in')]
     for rts, kind in fams:
         want = sorted(r.real for r in rts if abs(complex(r).imag) == 0 and 0 <= complex(r).real <= 1)
         base = numpy.real(numpy.poly(rts))
